@@ -191,6 +191,26 @@ def gen_program(rng, steps):
     for d in regs['fq2']:
         emit(d, 'fq2.lit', f2hex(gen.fq2_value(rng)[0]), kind='produce', f='fq2')
     for _ in range(steps):
+        if rng.random() < 0.06:
+            # cross-type aliasing: consecutive calls on an Fr and an Fq value whose INTERNAL (Montgomery) limbs are identical -
+            # a cache or memo keyed on the raw limbs without the modulus would confuse them
+            m = gen.limb_value(rng, r) if rng.random() < 0.5 else rng.getrandbits(255)
+            m %= r
+            m = m or 1
+            op = rng.choice(['inverse', 'inverse', 'pow2', 'neg'])
+            order = [('fr', rm.unmont(m, r)), ('fq', rm.unmont(m, q))]
+            if rng.random() < 0.5:
+                order.reverse()
+            for f2, v in order:
+                d2 = rng.choice(regs[f2])
+                if op == 'inverse':
+                    emit(d2, f2 + '.inverse', h32(v), kind='produce', f=f2)
+                elif op == 'pow2':
+                    emit(d2, f2 + '.pow', h32(v), h32(2), kind='produce', f=f2)
+                else:
+                    emit(d2, f2 + '.neg.v', h32(v), kind='produce', f=f2)
+                checks(f2, d2)
+            continue
         f = rng.choice(['fr', 'fr', 'fq', 'fq', 'fq2'])
         produce(f, rng.choice(regs[f]))
     return out
